@@ -244,6 +244,222 @@ def validate (trackWidth bound pixelThreshold diffusion : Rat) : Option String :
 def halfKernelSize (width pixelSize : Float) : Int :=
   Py.floorDiv (Float.ceil (width / pixelSize)).toInt64.toInt 2
 
+/-! ### editing tracks: `KymoTrack.interpolate`, `KymoTrack._split`, `KymoTrackGroup._split_track`,
+    `KymoTrackGroup._merge_tracks`, `filter_tracks`
+
+  A track is its list of (scan-line index, pixel coordinate) points; a group is a list of tracks. -/
+
+abbrev Track := List (Int × Rat)
+
+/-- `track.time_idx` -/
+def timesOf (tr : Track) : List Int := tr.map (·.1)
+
+/-- `np.interp(x, xp, fp)` for one abscissa: the segment `xp[j] ≤ x < xp[j+1]` is found by walking over the
+    points; left of the first point `fp[0]`, right of (and at) the last point `fp[-1]`, exactly on a point its
+    value, inside a segment `slope·(x − xp[j]) + fp[j]` with `slope = (fp[j+1] − fp[j])/(xp[j+1] − xp[j])`. -/
+def interpAt (x : Int) : Int × Rat → Track → Rat
+  | p, [] => p.2
+  | p, q :: rest =>
+    if x < q.1 then
+      (if x ≤ p.1 then p.2 else (q.2 - p.2) / ((q.1 - p.1 : Int) : Rat) * ((x - p.1 : Int) : Rat) + p.2)
+    else interpAt x q rest
+
+/-- `KymoTrack.interpolate`: `arange(int(min(time_idx)), int(max(time_idx)) + 1)` and `np.interp` at those lines
+    (`np.min` of an empty track raises; the protocol answers `ValueError` there) -/
+def interpolate : Track → Track
+  | [] => []
+  | p :: rest =>
+    let lo := (timesOf rest).foldl min p.1
+    let hi := (timesOf rest).foldl max p.1
+    (List.range (hi - lo + 1).toNat).map fun (k : Nat) => (lo + (k : Int), interpAt (lo + (k : Int)) p rest)
+
+/-- `KymoTrack._split(node)`: `node = clip(node, 0, len)`, `[:node]` and `[node:]`, refused when one is empty -/
+def splitAt (tr : Track) (node : Int) : Except String (Track × Track) :=
+  let n := (min (max node 0) (tr.length : Int)).toNat
+  if (tr.take n).isEmpty || (tr.drop n).isEmpty then .error "ValueError" else .ok (tr.take n, tr.drop n)
+
+/-- `KymoTrackGroup._split_track(track, split_node, min_length)` with the track given by its index in the group:
+    the halves that are long enough are appended, the track is removed -/
+def splitTrack (g : List Track) (i : Nat) (node minLen : Int) : Except String (List Track) :=
+  match g[i]? with
+  | none => .error "ValueError"
+  | some tr =>
+    match splitAt tr node with
+    | .error e => .error e
+    | .ok (a, b) => .ok (g.eraseIdx i ++ [a, b].filter fun t => decide (minLen ≤ (t.length : Int)))
+
+/-- `KymoTrackGroup._merge_tracks(starting_track, starting_node, ending_track, ending_node)` with the tracks given
+    by their indices in the group and nodes `0 ≤ node < len`: refused for equal line indices; the earlier node
+    becomes the start; `first_half = [: start + 1]`, `last_half = [end :]`; the result replaces the starting track,
+    the ending track is removed when it is another one -/
+def mergeTracks (g : List Track) (i sn j en : Nat) : Except String (List Track) :=
+  match g[i]?, g[j]? with
+  | some a, some b =>
+    match a[sn]?, b[en]? with
+    | some ps, some pe =>
+      if ps.1 = pe.1 then .error "ValueError"
+      else if ps.1 > pe.1 then
+        let g' := g.set j (b.take (en + 1) ++ a.drop sn)
+        .ok (if j = i then g' else g'.eraseIdx i)
+      else
+        let g' := g.set i (a.take (sn + 1) ++ b.drop en)
+        .ok (if i = j then g' else g'.eraseIdx j)
+    | _, _ => .error "IndexError"
+  | _, _ => .error "RuntimeError"
+
+/-- the test of `filter_tracks`: `len(track) >= minimum_length and track.duration >= minimum_duration`
+    (the line time is that of the track's own kymograph) -/
+def keepTrack (minLen : Int) (minDur lt : Rat) (tr : Track) : Bool :=
+  decide (minLen ≤ (tr.length : Int)) &&
+    (match duration lt (timesOf tr) with
+     | some d => decide (minDur ≤ d)
+     | none => false)
+
+/-- `filter_tracks(tracks, minimum_length, minimum_duration=…)`: the list comprehension -/
+def filterTracks (minLen : Int) (minDur : Rat) (g : List (Rat × Track)) : List (Rat × Track) :=
+  g.filter fun x => keepTrack minLen minDur x.1 x.2
+
+/-- one editing step on a group whose tracks come from one kymograph -/
+inductive EditOp where
+  /-- `[t.interpolate() for t in group]`, except the tracks whose index is listed in `skip` -/
+  | interpolate (skip : List Nat)
+  | split (i : Nat) (node minLen : Int)
+  | merge (i sn j en : Nat)
+  | filter (minLen : Int) (minDur : Rat)
+deriving Repr
+
+def applyOp (lt : Rat) (g : List Track) : EditOp → Except String (List Track)
+  | .interpolate skip => .ok (g.zipIdx.map fun x => if skip.contains x.2 then x.1 else interpolate x.1)
+  | .split i node minLen => splitTrack g i node minLen
+  | .merge i sn j en => mergeTracks g i sn j en
+  | .filter minLen minDur => .ok ((filterTracks minLen minDur (g.map fun t => (lt, t))).map (·.2))
+
+/-- a program of editing steps; a refused step (the code raises before it modifies the group) leaves the group as it is -/
+def runProgram (lt : Rat) : List EditOp → List Track → List Track
+  | [], g => g
+  | op :: ops, g =>
+    match applyOp lt g op with
+    | .ok g' => runProgram lt ops g'
+    | .error _ => runProgram lt ops g
+
+/-- the track (line index, coordinate) that the linker's list of nodes stands for -/
+def trackOf (peaks : List (List Rat)) (t : List Node) : Track :=
+  t.filterMap fun n => (peakAt peaks n).map fun c => ((n.1 : Int), c)
+
+/-! ### centroid refinement without bias correction: `refine_peak_based_on_moment` (the pixel walk with its clamps)
+    and `refine_tracks_centroid(..., bias_correction=False)` around it
+
+  The image is given by its scan lines (`cols[t] = image[:, t]`), `n` is the number of pixel rows. -/
+
+/-- a pixel of a scan line, zero outside (`convolve2d(…, "same")` pads with zeros) -/
+def pxAt (col : List Int) (i : Int) : Int := if i < 0 then 0 else col.getD i.toNat 0
+
+/-- `m0 = convolve2d(data, ones((2h+1, 1)), "same")[c, t]` -/
+def m0At (col : List Int) (h : Nat) (c : Int) : Int :=
+  ((List.range (2 * h + 1)).map fun (k : Nat) => pxAt col (c + ((k : Int) - (h : Int)))).sum
+
+/-- `convolve2d(data, dir_kernel, "same")[c, t] = Σ_d d · data[c + d, t]`, `d = −h … h` -/
+def m1At (col : List Int) (h : Nat) (c : Int) : Int :=
+  ((List.range (2 * h + 1)).map fun (k : Nat) => ((k : Int) - (h : Int)) * pxAt col (c + ((k : Int) - (h : Int)))).sum
+
+/-- `subpixel_offset[c, t] = m1 / (m0 + eps)` -/
+def offsetAt (eps : Rat) (col : List Int) (h : Nat) (c : Int) : Rat :=
+  (m1At col h c : Rat) / ((m0At col h c : Rat) + eps)
+
+/-- one point of one pass: `coordinates[out_of_bounds] += sign(offsets[out_of_bounds])` where `abs(offset) > 0.5`;
+    the flag says whether the point was moved -/
+def movePt (eps : Rat) (cols : List (List Int)) (h : Nat) (p : Int × Nat) : Int × Nat × Bool :=
+  let off := offsetAt eps (cols.getD p.2 []) h p.1
+  if off > 1/2 then (p.1 + 1, p.2, true) else if off < -(1/2) then (p.1 - 1, p.2, true) else (p.1, p.2, false)
+
+/-- the edge cases: `coordinates[coordinates < 0] = 0; coordinates[coordinates >= max] = max − 1` -/
+def clampPt (n : Int) (c : Int) : Int := if c < 0 then 0 else if c ≥ n then n - 1 else c
+
+/-- one pass over all points and the number the loop tests: `out_of_bounds.size − sum(low) − sum(high)` -/
+def refineIter (eps : Rat) (cols : List (List Int)) (h : Nat) (n : Int) (pts : List (Int × Nat)) :
+    List (Int × Nat) × Int :=
+  let moved := pts.map (movePt eps cols h)
+  let nMoved := (moved.filter fun m => m.2.2).length
+  let low := (moved.filter fun m => decide (m.1 < 0)).length
+  let high := (moved.filter fun m => decide (m.1 ≥ n)).length
+  (moved.map fun m => (clampPt n m.1, m.2.1), (nMoved : Int) - (low : Int) - (high : Int))
+
+/-- `for _ in range(max_iter): … if … == 0: break  else: raise RuntimeError` -/
+def refineLoop (eps : Rat) (cols : List (List Int)) (h : Nat) (n : Int) : Nat → List (Int × Nat) → Option (List (Int × Nat))
+  | 0, _ => none
+  | fuel + 1, pts =>
+    let r := refineIter eps cols h n pts
+    if r.2 = 0 then some r.1 else refineLoop eps cols h n fuel r.1
+
+/-- `refine_peak_based_on_moment(data, coordinates, time_points, half_kernel_size, bias_correction=False)`:
+    refined coordinate, time point and window sum `m0` of every point -/
+def refineMoment (eps : Rat) (cols : List (List Int)) (h : Nat) (n : Int) (pts : List (Int × Nat)) :
+    Except String (List (Rat × Nat × Int)) :=
+  if h < 1 then .error "ValueError"
+  else match refineLoop eps cols h n 100 pts with
+    | none => .error "RuntimeError"
+    | some ps => .ok (ps.map fun p =>
+        ((p.1 : Rat) + offsetAt eps (cols.getD p.2 []) h p.1, p.2, m0At (cols.getD p.2 []) h p.1))
+
+/-- `np.round` (halves to the even neighbour) -/
+def roundHalfEven (r : Rat) : Int :=
+  let f := r.floor
+  if r - (f : Rat) < 1/2 then f else if r - (f : Rat) > 1/2 then f + 1 else if f % 2 = 0 then f else f + 1
+
+/-- cut a flat list back into pieces of the given lengths (`coordinate_idx[track_ids == j]`) -/
+def regroup {β} : List Nat → List β → List (List β)
+  | [], _ => []
+  | k :: ks, l => l.take k :: regroup ks (l.drop k)
+
+/-- `refine_tracks_centroid(tracks, track_width, bias_correction=False)` for the tracks of one kymograph:
+    interpolate, round to pixels, one joint pixel walk over all points, cut back into tracks -/
+def refineTracks (eps : Rat) (cols : List (List Int)) (h : Nat) (n : Int) (g : List Track) : Except String (List Track) :=
+  let ig := g.map interpolate
+  let pts := ig.flatten.map fun p => (roundHalfEven p.2, p.1.toNat)
+  match refineMoment eps cols h n pts with
+  | .error e => .error e
+  | .ok ps => .ok (regroup (ig.map List.length) (ps.map fun q => ((q.2.1 : Int), q.1)))
+
+/-! ### programs that also refine -/
+
+/-- a step of a program that also refines: an editing step or `refine_tracks_centroid(track_width, bias_correction=False)` -/
+inductive Step where
+  | edit (op : EditOp)
+  | refine (h : Nat)
+deriving Repr
+
+def applyStep (eps lt : Rat) (cols : List (List Int)) (n : Int) (g : List Track) : Step → Except String (List Track)
+  | .edit op => applyOp lt g op
+  | .refine h => refineTracks eps cols h n g
+
+/-- a program of steps; a refused step leaves the group as it is -/
+def runSteps (eps lt : Rat) (cols : List (List Int)) (n : Int) : List Step → List Track → List Track
+  | [], g => g
+  | st :: sts, g =>
+    match applyStep eps lt cols n g st with
+    | .ok g' => runSteps eps lt cols n sts g'
+    | .error _ => runSteps eps lt cols n sts g
+
+
+/-! ### `merge_close_peaks` (per frame) -/
+
+def absRat (r : Rat) : Rat := if r < 0 then -r else r
+
+/-- `merge_close_peaks`, one frame of (coordinate, amplitude): the indices (into the frame's arrays) that are masked out.
+    `sort_order = argsort(coordinates)`; `too_close = where(abs(diff(sorted coordinates)) < minimum_distance)`; of the two
+    neighbours the right one goes when it is strictly lower, else the left one; `mask[sort_order[too_close]] = False`. -/
+def mergeCloseRemoved (minDist : Rat) (fr : List (Rat × Rat)) : List Nat :=
+  let order := argsort (fun (a b : Rat) => decide (a ≤ b)) (fr.map (·.1))
+  let sorted := order.filterMap fun i => fr[i]?
+  let removeSorted := (sorted.zip sorted.tail).zipIdx.filterMap fun x =>
+    if absRat (x.1.2.1 - x.1.1.1) < minDist then some (if x.1.2.2 < x.1.1.2 then x.2 + 1 else x.2) else none
+  removeSorted.filterMap fun r => order[r]?
+
+/-- the frame after `merge_close_peaks`: `coordinates[mask]`, `peak_amplitudes[mask]` -/
+def mergeCloseFrame (minDist : Rat) (fr : List (Rat × Rat)) : List (Rat × Rat) :=
+  (fr.zipIdx.filter fun x => !(mergeCloseRemoved minDist fr).contains x.2).map (·.1)
+
+
 /-! ### protocol -/
 open Verif.Proto
 
@@ -264,6 +480,30 @@ def detPair? (s : String) : Option (Nat × Rat) :=
 
 def showDet (d : Nat × Rat) : String := toString d.1 ++ ":" ++ showRat d.2
 
+def mkGroup (times : List (List Int)) (coords : List (List Rat)) : Option (List Track) :=
+  if times.length ≠ coords.length then none
+  else (times.zip coords).mapM fun (t, c) => if t.length ≠ c.length then none else some (t.zip c)
+
+def showGroup (g : List Track) : String :=
+  showListList showInt (g.map timesOf) ++ " " ++ showListList showRat (g.map fun t => t.map (·.2))
+
+/-- `interp:` / `interp:0,2` (indices left as they are), `split:i:node:minLen`, `merge:i:sn:j:en`, `filter:minLen:minDur` -/
+def editOp? (s : String) : Option EditOp :=
+  match s.splitOn ":" with
+  | ["interp", skip] => do
+    let skip ← if skip = "" then some [] else (skip.splitOn ",").mapM nat?
+    some (.interpolate skip)
+  | ["split", i, node, minLen] => do
+    let i ← nat? i; let node ← int? node; let minLen ← int? minLen
+    some (.split i node minLen)
+  | ["merge", i, sn, j, en] => do
+    let i ← nat? i; let sn ← nat? sn; let j ← nat? j; let en ← nat? en
+    some (.merge i sn j en)
+  | ["filter", minLen, minDur] => do
+    let minLen ← int? minLen; let minDur ← rat? minDur
+    some (.filter minLen minDur)
+  | _ => none
+
 /-- ops:
   `c08.link window vel sigma diffusion cutoff [coords per frame] [amps per frame]`   tracks `[f:j,…;…]`
   `c08.params velocity diffusion sigma lineTime pixelSize`   `[vel_px, diff_px, sigma_px]` (doubles)
@@ -273,7 +513,14 @@ def showDet (d : Nat × Rat) : String := toString d.1 ++ ":" ++ showRat d.2
   `c08.sumwin w [col] c offset`                              `k s(k-1) s(k) s(k+1)`
   `c08.units lineTime pixelSize [idx] [coords]`              seconds | positions | coordinate_idx | duration
   `c08.validate trackWidth bound threshold diffusion`        `ok` or the error
-  `c08.halfwidth width pixelSize`                            -/
+  `c08.halfwidth width pixelSize`
+  `c08.edit lineTime <step> [[idx]] [[coords]]`              the group after one editing step, or the error
+  `c08.editprog lineTime <step|step|…> [[idx]] [[coords]]`   the group after the program (refused steps skipped)
+  `c08.trackof [[coords per frame]] [f:j,…;…]`               the tracks of a linker result as (idx, coordinate)
+  `c08.refine eps h n [[scan lines]] [[idx]] [[coords]]`     `refine_tracks_centroid(bias_correction=False)`: the group, or the error
+  `c08.steps eps lineTime n [[scan lines]] <step|…> [[idx]] [[coords]]`   program of editing steps and `refine:h` steps
+  `c08.mergeclose minDist [[coords per frame]] [[amps per frame]]`   the frames after `merge_close_peaks`
+  `c08.moment eps h n [[scan lines]] [c:t,…]`                 pixel walk: `[refined,…] [m0,…]` or the error -/
 def handle : List String → Option String
   | ["c08.link", w, vel, sigma, diff, cutoff, coords, amps] => do
     let w ← int? w
@@ -318,6 +565,65 @@ def handle : List String → Option String
   | ["c08.halfwidth", width, ps] => do
     let width ← float? width; let ps ← float? ps
     some (toString (halfKernelSize width ps))
+  | ["c08.edit", lt, step, times, coords] => do
+    let lt ← rat? lt; let op ← editOp? step
+    let times ← listListOf? int? times; let coords ← listListOf? rat? coords
+    let g ← mkGroup times coords
+    if g.any (·.isEmpty) then some "ValueError"
+    else
+      match applyOp lt g op with
+      | .ok g' => some (showGroup g')
+      | .error e => some e
+  | ["c08.editprog", lt, steps, times, coords] => do
+    let lt ← rat? lt; let ops ← (steps.splitOn "|").mapM editOp?
+    let times ← listListOf? int? times; let coords ← listListOf? rat? coords
+    let g ← mkGroup times coords
+    if g.any (·.isEmpty) then some "ValueError"
+    else some (showGroup (runProgram lt ops g))
+  | ["c08.trackof", coords, nodes] => do
+    let coords ← listListOf? rat? coords
+    let nodes ← listListOf? (fun s => match s.splitOn ":" with
+      | [f, j] => do let f ← nat? f; let j ← nat? j; some (f, j)
+      | _ => none) nodes
+    some (showGroup (nodes.map (trackOf coords)))
+  | ["c08.refine", eps, h, n, cols, times, coords] => do
+    let eps ← rat? eps; let h ← nat? h; let n ← int? n
+    let cols ← listListOf? int? cols
+    let times ← listListOf? int? times; let coords ← listListOf? rat? coords
+    let g ← mkGroup times coords
+    if g.any (·.isEmpty) then some "ValueError"
+    else
+      match refineTracks eps cols h n g with
+      | .ok g' => some (showGroup g')
+      | .error e => some e
+  | ["c08.steps", eps, lt, n, cols, steps, times, coords] => do
+    let eps ← rat? eps; let lt ← rat? lt; let n ← int? n
+    let cols ← listListOf? int? cols
+    let sts ← (steps.splitOn "|").mapM fun s =>
+      match s.splitOn ":" with
+      | ["refine", h] => (nat? h).map Step.refine
+      | _ => (editOp? s).map Step.edit
+    let times ← listListOf? int? times; let coords ← listListOf? rat? coords
+    let g ← mkGroup times coords
+    if g.any (·.isEmpty) then some "ValueError"
+    else some (showGroup (runSteps eps lt cols n sts g))
+  | ["c08.mergeclose", md, coords, amps] => do
+    let md ← rat? md
+    let coords ← listListOf? rat? coords; let amps ← listListOf? rat? amps
+    if coords.length ≠ amps.length then none
+    else
+      let frames ← (coords.zip amps).mapM fun (c, a) => if c.length ≠ a.length then none else some (c.zip a)
+      let out := frames.map (mergeCloseFrame md)
+      some (showListList showRat (out.map fun f => f.map (·.1)) ++ " " ++ showListList showRat (out.map fun f => f.map (·.2)))
+  | ["c08.moment", eps, h, n, cols, pts] => do
+    let eps ← rat? eps; let h ← nat? h; let n ← int? n
+    let cols ← listListOf? int? cols
+    let pts ← listOf? (fun s => match s.splitOn ":" with
+      | [c, t] => do let c ← int? c; let t ← nat? t; some (c, t)
+      | _ => none) pts
+    match refineMoment eps cols h n pts with
+    | .ok ps => some (showRatList (ps.map (·.1)) ++ " " ++ showIntList (ps.map (·.2.2)))
+    | .error e => some e
   | _ => none
 
 end Verif.C08
